@@ -57,6 +57,12 @@ claim("C20",
       STATIC_NOTE + "Not decided: arithmetic consistency of key material that passes the validators (C15/C02).",
       "DESIGN.md §4 C20")
 
+claim("C04",
+      "value-identity rule on every abort(err, culprits) site of MultiHandler (culprit = From of the very message whose processing failed), blame-guard inventory (culprit append sites with deciding check, data and culprit expression), loop-carried-accumulator rule for per-party tables, round-graph rules (content round numbers, FinalRoundNumber window over all reachable rounds incl. abort rounds), prover/verifier index-agreement rule for the abort decryption proofs",
+      "Decides for every deviation and delivery order who CAN be named: handler-level blame always names the sender of the failing message (or nobody / the Abort round's list); protocol-level blame sites keep their recorded check and name the loop's own party, never self; per-party entries used for share-wise blame depend only on that party's data; abort rounds' messages are deliverable in every variant; and it reports (as a recorded known finding) that abort1/abort2 verify decryption proofs against the wrong table entry. Right level: attribution is dataflow from a failing check to a name; the arithmetic of the recomputation is NOT decided.",
+      STATIC_NOTE + "tables/blame_guards.json. Two known findings (abort1/abort2 index swap) are listed in known_findings.jsonl and printed as KNOWN-FINDING.",
+      "DESIGN.md §4 C04")
+
 for p, why in {
     "C01": "not built yet", "C02": "not built yet", "C03": "not built yet", "C04": "not built yet", "C05": "not built yet",
     "C06": "not built yet", "C07": "not built yet", "C08": "not built yet", "C09": "not built yet", "C10": "not built yet",
